@@ -292,24 +292,55 @@ func (s *sim) gossipSlot(slot uint64, blk *blockRec, parent *blockRec, hb *state
 	// window the p2p specification allows for it (message slot .. message slot + span, each side
 	// widened by MAXIMUM_GOSSIP_CLOCK_DISPARITY = 500 ms): still inside, so the verdict stays ACCEPT.
 	// Returns a note for the report and the function that puts the clock back.
-	// lastVoteSlot: the last slot in which a vote (or aggregate) of msgSlot may still be propagated. Up to
-	// capella: msgSlot + ATTESTATION_PROPAGATION_SLOT_RANGE (32). From deneb on (EIP-7045): the vote's
-	// epoch must be the current or the previous one, so the last slot of the epoch after the vote's.
-	// ok is false when the fork in force at the end of the window is on the other side of deneb than
-	// the one at the vote's slot (which rule governs such a vote is the topic's business, not tried here)
-	lastVoteSlot := func(msgSlot uint64) (last uint64, ok bool) {
-		deneb := w.forkIndexAt(w.epochOf(msgSlot)) >= 4
-		last = msgSlot + 32
-		if deneb {
-			last = (w.epochOf(msgSlot)+2)*s.cfg.SPE - 1
+	// voteMayPropagate: may a vote (or aggregate) of msgSlot be propagated when the node's clock shows
+	// nowMs? The rule is the one of the fork in force at the clock's epoch (the topic's fork digest follows
+	// the clock): up to capella msgSlot <= current_slot <= msgSlot + ATTESTATION_PROPAGATION_SLOT_RANGE (32);
+	// from deneb on (EIP-7045) msgSlot <= current_slot and the vote's epoch is the current or the previous
+	// one; each comparison with the MAXIMUM_GOSSIP_CLOCK_DISPARITY allowance of 500 ms in its favour.
+	slotAt := func(ms int64) uint64 {
+		if ms < 0 {
+			return 0
 		}
-		return last, (w.forkIndexAt(w.epochOf(last+2)) >= 4) == deneb
+		return uint64(ms / msPerSlot)
+	}
+	voteMayPropagate := func(msgSlot uint64, nowMs int64) bool {
+		if msgSlot > slotAt(nowMs+500) {
+			return false
+		}
+		early := slotAt(nowMs - 500)
+		if w.forkIndexAt(w.epochOf(slotAt(nowMs))) >= 4 {
+			prev := w.epochOf(early)
+			if prev > 0 {
+				prev--
+			}
+			return w.epochOf(msgSlot) >= prev
+		}
+		return msgSlot+32 >= early
+	}
+	// lastVoteSlot: the end of one of the two windows (32 slots; the epoch after the vote's), drawn at
+	// random: which of them is in force at that time is for voteMayPropagate to say
+	lastVoteSlot := func(msgSlot uint64) (last uint64, ok bool) {
+		if r.Bool() {
+			return msgSlot + 32, true
+		}
+		return (w.epochOf(msgSlot)+2)*s.cfg.SPE - 1, true
 	}
 	edgeClock := func(msgSlot uint64, last uint64) (string, func()) {
 		save := g.nowMs
 		restore := func() { g.nowMs = save }
 		span := last - msgSlot
-		switch r.Intn(9) {
+		pick := r.Intn(9)
+		if span > 0 && pick >= 1 && pick <= 2 {
+			// a vote: the late edge only counts where the rule in force at that time still lets the vote pass
+			t := int64(msgSlot+span+1)*msPerSlot - 100
+			if pick == 1 {
+				t = int64(msgSlot+span+1)*msPerSlot + 499
+			}
+			if !voteMayPropagate(msgSlot, t) {
+				return "", restore
+			}
+		}
+		switch pick {
 		case 0:
 			g.nowMs = int64(msgSlot)*msPerSlot - 400 - int64(r.Intn(101)) // (down to exactly 500 ms early)
 			if g.nowMs < 0 {
@@ -615,14 +646,15 @@ func (s *sim) gossipSlot(slot uint64, blk *blockRec, parent *blockRec, hb *state
 				}
 				g.nowMs = save
 			case mode == 6: // clock far ahead: beyond the propagation range
-				if lastSlot, sameRule := lastVoteSlot(slot); sameRule {
+				lastSlot, _ := lastVoteSlot(slot)
+				if late := int64(lastSlot+1)*msPerSlot + 501 + int64(r.Intn(int(2*msPerSlot))); !voteMayPropagate(slot, late) { // (from just outside the allowance on)
 					save := g.nowMs
-					g.nowMs = int64(lastSlot+1)*msPerSlot + 501 + int64(r.Intn(int(2*msPerSlot))) // (from just outside the allowance on)
+					g.nowMs = late
 					res, p := validate(func() gossipval.GossipValidatorResult {
 						_, x := gossipval.ValidateAttestation(ctx, subnet, att, g)
 						return x
 					})
-					s.judge(g, "attestation", what+fmt.Sprintf(" received %d ms after the end of the last slot (%d) in which it may be propagated", g.nowMs-int64(lastSlot+1)*msPerSlot, lastSlot), expTiming, res, p)
+					s.judge(g, "attestation", what+fmt.Sprintf(" received %d ms into slot %d, when the rule in force at that time no longer lets it be propagated", g.nowMs%msPerSlot, g.nowMs/msPerSlot), expTiming, res, p)
 					g.nowMs = save
 				}
 			case mode == 7 && head != w.genesis: // voted block not yet seen
